@@ -52,8 +52,11 @@ def port_kinds(reduced=False):
           ({'_path': ('s',), 'n': {'_path': ('inner',), 'a': ('ra',)}}, 0),
           ({'_path': ('s',), 'n': {'_path': ('..', 'side'),
                                    'm': ('mm',)}, 'c': ('rc',)}, 0),
-          ({'_path': ('..', 'u'), 'n': {'m': {'_path': ('q',),
-                                              'b': ('rb',)}}}, 1)]
+          ({'_path': ('..', 'u'), 'n': {'_path': ('nn',),
+                                        'm': {'_path': ('q',),
+                                              'b': ('rb',)}}}, 1),
+          # a _path-less inner dictionary must list every variable
+          ({'_path': ('s',), 'n': {'a': ('xa',), 'm': ('xm',)}}, 0)]
     kinds.append(('nested', nested, t3))
     # 4. glob port over pre-existing children
     glob = lambda: {'*': {'a': leaf(), 'b': leaf()}}  # noqa
@@ -81,10 +84,10 @@ def single_port_shapes():
                     yield {'ports': [('p0', kind, ti)], 'place': place}
 
 
-def multi_port_shapes(n_ports, collide=True):
-    """n ports from the reduced grammar; includes ports wired to one store
-    and variables wired to one node."""
-    kinds = port_kinds(reduced=True)
+def multi_port_shapes(n_ports, reduced=True):
+    """n ports from the (reduced) grammar; includes ports wired to one
+    store and variables wired to one node."""
+    kinds = port_kinds(reduced=reduced)
     options = [(kind, ti) for kind, mk, topos in kinds
                for ti in range(len(topos))]
     for combo in itertools.combinations_with_replacement(options, n_ports):
@@ -97,7 +100,7 @@ def multi_port_shapes(n_ports, collide=True):
             if ok:
                 yield {'ports': [(f'p{i}', kind, ti)
                                  for i, (kind, ti) in enumerate(combo)],
-                       'place': place, 'reduced': True}
+                       'place': place, 'reduced': reduced}
 
 
 def build(shape):
